@@ -876,8 +876,11 @@ class WaveSpectrum(DatasetWrapper):
             coords[dim] = self.dataset[dim].values
 
         return xarray.DataArray(
-            data=inverse_intrinsic_dispersion_relation(
-                self.radian_frequency[index].values, self.depth.values
+            data=np.reshape(
+                inverse_intrinsic_dispersion_relation(
+                    self.radian_frequency[index].values, self.depth.values
+                ),
+                np.shape(self.depth.values),
             ),
             dims=self.dims_space_time,
             coords=coords,
